@@ -3,6 +3,16 @@ tier, the non-triviality rule, essential classes, assumptions."""
 
 PROPS = {}
 
+# Properties not (yet) claimed, each with a reason. Kept current by hand.
+NOT_APPLICABLE = []
+
+ENGINES = [
+    dict(name="cxxmock", path="src/props/C19.cpp", serves_properties=["C19"],
+         kind_free_text="rapidcheck-generated scenarios against reproc++ linked to a recording mock of the C API"),
+    dict(name="winstub", path="src/winstub + src/props/C18.cpp + src/fuzz/C18_fuzz.cpp", serves_properties=["C18"],
+         kind_free_text="Windows sources compiled on stub headers; exhaustive small-scope sweep + rapidcheck + libFuzzer with a round-trip oracle"),
+]
+
 
 def prop(pid, **kw):
     PROPS[pid] = kw
@@ -12,6 +22,11 @@ prop(
     "C19",
     title="reproc++ is a faithful mapping of the C API",
     level="exploration",
+    engine="cxxmock",
+    level_text=("Random generated options/containers/method calls/return values (2e5 quick, 4e6 thorough) with field-by-field "
+                "comparison at a recording mock; every field has a distinct sentinel so positional mix-ups cannot cancel. Sampling, not proof."),
+    level_note="Trusts the mock's recording of arguments and libstdc++'s error_code equivalence; reproc++ sources compiled unmodified.",
+    technique="property-based testing (rapidcheck-generated scenarios) against a recording mock; field-wise differential oracle",
     campaigns=[dict(bin="C19", random=dict(quick=200000, thorough=4000000))],
     rule=("rapidcheck-generated scenarios: random reproc::options (every field independent, distinct sentinels), "
           "arguments/env from 5 container kinds each, start or fork, optionally through options::clone, then 0-6 "
@@ -25,5 +40,41 @@ prop(
         "the C API is replaced by a recording mock; C constants REPROC_E* come from the real error.posix.c",
         "input's string-literal constructor (size includes the NUL) is outside the property's wording",
         "options.timeout has no C counterpart and is not compared",
+    ],
+)
+
+prop(
+    "C18",
+    title="Windows command line and environment block encode argv/env losslessly, in bounds",
+    level="exploration",
+    engine="winstub",
+    level_text=("Exhaustive enumeration of all single arguments up to length 6/8 and pairs up to length 3/4 over the special "
+                "alphabet, plus random long vectors and coverage-guided libFuzzer campaigns, all through the real process_start "
+                "of the Windows sources compiled on stub headers; round-trip oracle with two independent splitters, exact "
+                "buffer-size comparison, ASan redzones. Exhaustive only for the stated small scope."),
+    level_note="Trusts the stub Win32 layer (MultiByteToWideChar, CreateProcessW capture) and the independently written splitters; no real Windows.",
+    technique="exhaustive small-scope enumeration + property-based testing (rapidcheck) + coverage-guided fuzzing (libFuzzer), round-trip oracle",
+    campaigns=[dict(bin="C18", sweep=True, random=dict(quick=40000, thorough=600000),
+                    extra=dict(
+                        quick=[["{verif}/tools/fuzz_job.py", "C18", "{bd}/fuzz/C18_fuzz", "{out}", "15", str(s), "{scratch}"] for s in (11, 12, 13, 14)],
+                        thorough=[["{verif}/tools/fuzz_job.py", "C18", "{bd}/fuzz/C18_fuzz", "{out}", "300", str(s), "{scratch}"] for s in range(21, 37)]))],
+    extra_targets=["fuzz/C18_fuzz"],
+    rule=("Sweep (exhaustive): every single argument of length <= 6 (thorough: 8) over {space, tab, newline, VT, quote, "
+          "backslash, 'a'} and every pair of arguments of length <= 3 (thorough: 4); random: rapidcheck vectors of 0-40 "
+          "arguments (lengths to 5000, the same alphabet plus multi-byte and invalid UTF-8), extra-env lists of 0-50 "
+          "entries, parent blocks of 0-50 entries (incl. '=C:=...' entries), extend/empty, extra NULL, an allocation "
+          "failure at a generated allocation index. Each case runs the real process_start of process.windows.c on stub "
+          "headers; oracle = round-trip through two independent splitters (post-2008 CRT and CommandLineToArgvW quote "
+          "rules), decoded environment block == parent ++ extra, requested buffer sizes == units used, ASan. "
+          "Non-trivial: some argument is empty, contains a quote, or has a backslash directly before a quote or at the "
+          "end of an argument that needs quoting. Distinct: hash of the argument vector (+ env for random cases)."),
+    essential=dict(quick=["sweep-single", "sweep-pair", "random", "empty-argument", "env-extend-with-extras", "alloc-fault", "cleanly-rejected", "fuzz-execs"]),
+    exhaustive=dict(quick=True, thorough=True),
+    exhaustive_scope="all single arguments of length <= 6 (quick) / 8 (thorough) and all argument pairs of length <= 3 / 4 over the 7-letter alphabet; the random part is not exhaustive",
+    assumptions=[
+        "Windows sources compiled unmodified with -D_WIN32 against a stub windows.h on Linux; wchar_t is 32-bit but holds UTF-16 code units (the stub MultiByteToWideChar emits surrogate pairs)",
+        "CreateProcessW, GetEnvironmentStringsW are stubs that record / supply data; real Windows process creation is out of reach",
+        "the program token (argv[0]) is drawn from names without quotes that do not end in a backslash (the Windows rule for the program token differs)",
+        "the splitters are written from Microsoft's documented rules, not from the code under test",
     ],
 )
